@@ -129,15 +129,7 @@ class AbstractAst:
         #TODO How to handle sub-formulas?
         entire_spec = self.modular_spec + self.spec
         
-        # The ';' after the last requirement is optional. It is missing if the last
-        # token of the text is not a ';' - white space and comments after the ';'
-        # (a file that ends with a line break) do not count, the lexer skips them.
-        lexer = self.antrlLexerType(InputStream(entire_spec))
-        lexer.removeErrorListeners()
-        tokens = lexer.getAllTokens()
-        if not tokens or tokens[-1].text != ';':
-            # on a line of its own: the text may end with a line comment
-            entire_spec += '\n;'
+        entire_spec = self.with_final_semicolon(entire_spec)
 
         input_stream = InputStream(entire_spec)
         lexer = self.antrlLexerType(input_stream)
@@ -230,8 +222,21 @@ class AbstractAst:
         node = self.phi_name_to_node_dict[phi_name]
         return self.results[node]
 
+    def with_final_semicolon(self, text, empty_too=True):
+        # The ';' after the last requirement of a text is optional. It is missing if the
+        # last token of the text is not a ';' - white space and comments after the ';'
+        # (a file that ends with a line break) do not count, the lexer skips them.
+        lexer = self.antrlLexerType(InputStream(text))
+        lexer.removeErrorListeners()
+        tokens = lexer.getAllTokens()
+        if (not tokens and empty_too) or (tokens and tokens[-1].text != ';'):
+            # on a line of its own: the text may end with a line comment
+            text += '\n;'
+        return text
+
     def add_sub_spec(self, sub_spec):
-        self.modular_spec = self.modular_spec + sub_spec + '\n'
+        # the text of a sub-specification may omit its final ';' like every specification text
+        self.modular_spec = self.modular_spec + self.with_final_semicolon(sub_spec, empty_too=False) + '\n'
 
     def create_var_from_name(self, var_name):
         var = None
